@@ -52,6 +52,8 @@ func c19Font(withNames bool) *sfnt.Font {
 	cm['"'] = 1 // a quote, a backslash and a non-printable character are mapped as well
 	cm['\\'] = 2
 	cm[0x07] = 3
+	cm[0xA0] = 4 // ... and two glyphs whose largest character code is not printable (no-break space, line separator)
+	cm[0x2028] = 5
 	f.InstallCMap(cm)
 	return f
 }
